@@ -74,6 +74,9 @@ def run(key):
     # 20 EM iterations amplify rounding (un-normalised covariances reach 1e3): one more decade
     rt = 1e-7 if model == 'cbmm' else (5e-4 if c['single'] else tol.ITER * (10 if its > 5 else 1))
     n = 0
+    # one trainer object serves all relabelled fits (a user who compares labellings does exactly that): nothing
+    # may be carried over from one fit to the next
+    shared = M.trainer(model)
     for perm in perms_for(K, thorough):
         perm = list(perm)
         o2 = dict(opts)
@@ -81,7 +84,7 @@ def run(key):
             o2['source_activity_mask'] = np.ascontiguousarray(mask[..., perm, :])
         init_p = np.ascontiguousarray(init[..., perm, :])
         try:
-            m2 = M.fit(model, c['data'], init_p, its, **o2)
+            m2 = M.fit(model, c['data'], init_p, its, tr=shared, **o2)
             post2 = M.predict(model, m2, c['data']) if mask is None else \
                 m2.predict(c['data'], source_activity_mask=o2['source_activity_mask'])
         except Exception as e:  # noqa
